@@ -7,8 +7,11 @@
 int64_t nv_gi;            /* ghost: an arbitrary position of the percentile / ratio list */
 double nv_param_g;        /* ghost (prophecy): the percentile / ratio that std::sort leaves at position nv_gi */
 double nv_expected;       /* ghost: the threshold the property derives from it (defined in the precondition) */
+double nv_expected2, nv_expected3, nv_expected4;   /* the same with the operands of the (commutative) IEEE + and * swapped */
+#define NV_IS_EXPECTED(x) (NV_IDENT(x, nv_expected) || NV_IDENT(x, nv_expected2) || NV_IDENT(x, nv_expected3) || NV_IDENT(x, nv_expected4))
 int64_t nv_ctor_calls;    /* ghost: number of constructor calls */
 double nv_w_thr_in; int64_t nv_w_thr_n;   /* ghost: threshold nv_gi and number of thresholds handed to the constructor */
+double nv_w_gv_in;        /* ghost: the value at the ghost position as the factory's own std::sort left it (the constructor sorts again) */
 #ifndef NV_PARAM_MAX
 #define NV_PARAM_MAX 100.0
 #endif
@@ -56,15 +59,17 @@ static struct nv_histogram nv_ctor_call(NV_ELEM* b, NV_ELEM* e, struct nv_t1d t)
   nv_thr_base = t.p; nv_thr_n = t.n; nv_w_thr_n = t.n;
   nv_ctor_calls = nv_ctor_calls + 1;
   if (0 <= nv_gi && nv_gi < t.n) nv_w_thr_in = t.p[nv_gi];
+  nv_w_gv_in = nv_gv;
   hist_ctor(&h, b, e, t);
   return h;
 }
 
 /* common part: P = the parameter list (thresholds / percentiles / ratios), one threshold per parameter */
-#define NV_FACTORY_REQUIRES(P) \
-__CPROVER_requires(NV_HIST_VALUES && NV_T1D_OK(P) && (P).n >= 1 && nv_cov == 0 && nv_calls == 0 && !nv_seen && nv_ctor_calls == 0) \
+#define NV_FACTORY_REQUIRES(P) NV_FACTORY_REQUIRES_V(P, NV_HIST_VALUES)
+#define NV_FACTORY_REQUIRES_V(P, VALUES) \
+__CPROVER_requires(VALUES && NV_T1D_OK(P) && (P).n >= 1 && nv_cov == 0 && nv_calls == 0 && !nv_seen && nv_ctor_calls == 0) \
 __CPROVER_requires(0 <= nv_gb && nv_gb <= (P).n && 0 <= nv_gp && nv_gp < nv_n && 0 <= nv_gq && nv_gq < nv_n && 0 <= nv_gj && nv_gj < (P).n && 0 <= nv_gi && nv_gi < (P).n)
-#define NV_FACTORY_GHOSTS nv_cov, nv_calls, nv_lo, nv_hi, nv_seen, nv_ev, nv_ew, nv_gv, nv_tj, nv_tlo, nv_thi, nv_thr_base, nv_thr_n, nv_ctor_calls, nv_w_thr_in, nv_w_thr_n
+#define NV_FACTORY_GHOSTS nv_cov, nv_calls, nv_lo, nv_hi, nv_seen, nv_ev, nv_ew, nv_gv, nv_tj, nv_tlo, nv_thi, nv_thr_base, nv_thr_n, nv_ctor_calls, nv_w_thr_in, nv_w_thr_n, nv_w_gv_in
 #define NV_FACTORY_ENSURES(P) \
 /* exactly one histogram is constructed, from one threshold per parameter, over the whole value list ... */ \
 __CPROVER_ensures(nv_ctor_calls == 1 && nv_w_thr_n == __CPROVER_old((P).n)) \
@@ -89,13 +94,26 @@ __CPROVER_assigns(NV_LOOPVAR_make_pct_1, __CPROVER_object_whole(thresholds.p)) \
 __CPROVER_loop_invariant(0 <= NV_LOOPVAR_make_pct_1 && NV_LOOPVAR_make_pct_1 <= thresholds.n && (NV_LOOPVAR_make_pct_1 > nv_gi ==> NV_IDENT(thresholds.p[nv_gi], nv_expected))) \
 __CPROVER_decreases(thresholds.n - NV_LOOPVAR_make_pct_1)
 
-/* make_from_ratios: threshold i = min + r_i * (max - min), min / max = the smallest / largest value (at the ghost position) */
-#define NV_CONTRACT_make_rat NV_FACTORY_REQUIRES(NV_ARG_make_rat_2) \
-__CPROVER_requires(NV_ARG_make_rat_0 == nv_base && NV_ARG_make_rat_1 == nv_base + nv_n && NV_IDENT(nv_expected, NV_FADD(nv_vmin, NV_FMUL(nv_param_g, NV_FSUB(nv_vmax, nv_vmin))))) \
-__CPROVER_assigns(__CPROVER_object_whole(nv_base), __CPROVER_object_whole(NV_ARG_make_rat_2.p), NV_FACTORY_GHOSTS) \
-NV_FACTORY_ENSURES(NV_ARG_make_rat_2) \
-__CPROVER_ensures(NV_IDENT(nv_w_thr_in, nv_expected) && nv_vmin <= nv_gv && nv_gv <= nv_vmax)
+/* make_from_ratios: threshold i = min + r_i * (max - min), min / max = the smallest / largest value (at the ghost position).
+ * The function dereferences its iterators (*begin, *--end), so the value block is owned by `begin` and `end` is DERIVED from it:
+ * the contract is enforced on an entry wrapper whose body is nothing but the call make_rat(begin, begin + n, ratios)
+ * (NV_OWNER_PARAM; the prototype of make_rat is generated from the extracted signature). */
+#ifdef NV_OWNER_PARAM
+NV_MAKE_RAT_PROTO
+#define NV_VALUES_OWNED_BY(b) (1 <= nv_n && nv_n <= NV_MAXN && __CPROVER_is_fresh(b, nv_n * sizeof(NV_ELEM)) && nv_base == (b))
+struct nv_histogram nv_make_rat_entry(NV_ELEM* begin, int64_t n, struct nv_t1d ratios)
+NV_FACTORY_REQUIRES_V(ratios, NV_VALUES_OWNED_BY(begin))
+__CPROVER_requires(n == nv_n && NV_IDENT(nv_expected, NV_FADD(nv_vmin, NV_FMUL(nv_param_g, NV_FSUB(nv_vmax, nv_vmin)))) && NV_IDENT(nv_expected2, NV_FADD(nv_vmin, NV_FMUL(NV_FSUB(nv_vmax, nv_vmin), nv_param_g))))
+__CPROVER_requires(NV_IDENT(nv_expected3, NV_FADD(NV_FMUL(nv_param_g, NV_FSUB(nv_vmax, nv_vmin)), nv_vmin)) && NV_IDENT(nv_expected4, NV_FADD(NV_FMUL(NV_FSUB(nv_vmax, nv_vmin), nv_param_g), nv_vmin)))
+__CPROVER_assigns(__CPROVER_object_whole(begin), __CPROVER_object_whole(ratios.p), NV_FACTORY_GHOSTS)
+NV_FACTORY_ENSURES(ratios)
+/* min / max are the smallest / largest value: every value of the sorted list lies between them (at the ghost position) */
+__CPROVER_ensures(NV_IS_EXPECTED(nv_w_thr_in) && nv_vmin <= nv_w_gv_in && nv_w_gv_in <= nv_vmax)
+{
+  return make_rat(begin, begin + n, ratios);
+}
+#endif
 #define NV_LOOP_make_rat_1 \
 __CPROVER_assigns(NV_LOOPVAR_make_rat_1, __CPROVER_object_whole(thresholds.p)) \
-__CPROVER_loop_invariant(0 <= NV_LOOPVAR_make_rat_1 && NV_LOOPVAR_make_rat_1 <= thresholds.n && (NV_LOOPVAR_make_rat_1 > nv_gi ==> NV_IDENT(thresholds.p[nv_gi], nv_expected))) \
+__CPROVER_loop_invariant(0 <= NV_LOOPVAR_make_rat_1 && NV_LOOPVAR_make_rat_1 <= thresholds.n && (NV_LOOPVAR_make_rat_1 > nv_gi ==> NV_IS_EXPECTED(thresholds.p[nv_gi]))) \
 __CPROVER_decreases(thresholds.n - NV_LOOPVAR_make_rat_1)
